@@ -330,6 +330,14 @@ func TestVerif_C04Pipe(t *testing.T) {
 					return
 				}
 				defer r.cleanup()
+				if uint64(r.Conf.MinDiskSpace) != cfg.MinDiskMB {
+					// the disk check the recorder is built with is the configured one (0 = check disabled)
+					c.Violation("disk-check-differs-from-config", v.Name, fmt.Sprintf("config.toml says min-disk-space-mb = %d, the parsed configuration holds %d", cfg.MinDiskMB, r.Conf.MinDiskSpace))
+					return
+				}
+				if cfg.MinDiskMB == 0 {
+					c.Count("runs_with_disk_check_disabled", 1)
+				}
 				var moved int32
 				r.serve(pacedFeed(cam, frames, 2*time.Millisecond), func(name string) {
 					if v.DiskFactor == 1 && (name == "conn.frame.received" || name == "conn.frame.processed") && availMB(scratch) != before {
